@@ -57,7 +57,9 @@ fn history(targets: Vec<u64>) -> impl Strategy<Value = Vec<Intent>> {
 
 fn case() -> impl Strategy<Value = HistCase> {
     let cfg = GenCfg { max_blocks: 10, ..GenCfg::C03.with_input() };
-    (gen::program(cfg), gen::style(), any::<u64>(), super::c07::replies_multiline(), any::<bool>()).prop_flat_map(|(prog, style, final_seed, replies, warnings)| {
+    // one case in twelve has no program at all: RUN must then still wipe what the prompt left behind
+    let prog = prop_oneof![11 => gen::program(cfg), 1 => Just(Program::default())];
+    (prog, gen::style(), any::<u64>(), super::c07::replies_multiline(), any::<bool>()).prop_flat_map(|(prog, style, final_seed, replies, warnings)| {
         let targets: Vec<u64> = prog.lines.iter().map(|l| l.number).collect();
         history(targets).prop_map(move |history| HistCase { raw_lines: None, prog: prog.clone(), style, history, final_seed, replies: replies.clone(), warnings })
     })
@@ -259,7 +261,7 @@ pub fn property() -> Property {
     ];
     Property {
         id: "C10",
-        rule: "A grammar-generated program (INPUT/STOP allowed) is entered, then a history of 0-40 intents is applied to the same interpreter: RUN / CONT, continue n turns, breaks, replies incl. replies of several lines (so runs are left completed, failed, broken, awaiting input, or replied-to-then-broken), immediate statements that assign scalars and cells, DIM arrays the program also uses, open FOR loops, READ part of the DATA, call the program's functions, GOTO / GOSUB into the program, TRACE/NOTRACE, failing lines. Then both this interpreter and a fresh one holding the same lines (same option flags) are seeded alike and RUN under the same reply script. Oracle: identical event sequence (prints, notices, replies consumed, trace/warning records, STOP notices) and outcome; afterwards identical state snapshot (hook) and identical PRINT probes of all pool scalars, counters and sample cells of every array. Non-trivial: the snapshot before the final RUN shows live state (variables, arrays, frames, loops, data cursor, functions, breakpoint or a pending reply) and the run makes >= 3 calls; distinct by program + call-kind/outcome sequence of the history.",
+        rule: "A grammar-generated program (INPUT/STOP allowed; one case in twelve: no program at all) is entered, then a history of 0-40 intents is applied to the same interpreter: RUN / CONT, continue n turns, breaks, replies incl. replies of several lines (so runs are left completed, failed, broken, awaiting input, or replied-to-then-broken), immediate statements that assign scalars and cells, DIM arrays the program also uses, open FOR loops, READ part of the DATA, call the program's functions, GOTO / GOSUB into the program, TRACE/NOTRACE, failing lines. Then both this interpreter and a fresh one holding the same lines (same option flags) are seeded alike and RUN under the same reply script. Oracle: identical event sequence (prints, notices, replies consumed, trace/warning records, STOP notices) and outcome; afterwards identical state snapshot (hook) and identical PRINT probes of all pool scalars, counters and sample cells of every array. Non-trivial: the snapshot before the final RUN shows live state (variables, arrays, frames, loops, data cursor, functions, breakpoint or a pending reply) and the run makes >= 3 calls; distinct by program + call-kind/outcome sequence of the history.",
         assumptions: vec!["runs are bounded by 600 program-advancing calls; budget-limited runs are compared event by event up to the budget"],
         fuzz: None,
         families,
